@@ -637,6 +637,7 @@ def opDom : Op → Prop
   | .ms _ _ _ ts => ∀ t ∈ ts, inRange t
   | .setdel _ _ _ a => 0 < a ∧ a ≤ MaxNanoTime
   | .pre _ to => to ≤ MaxNanoTime
+  | .trunc _ => False
   | _ => True
 
 theorem foldl_setDuration_wf (cs : List (String × String × Int)) (d : Data) (h : WF d) :
@@ -714,6 +715,7 @@ theorem step_wf (s : State) (op : Op) (hwf : WF s.data) (hd : opDom op) : WF (st
   | setdel db rp id a => exact setDeletedAt_wf hwf db rp id hd
   | dropshard id => exact dropShard_wf hwf id modelNow_ok
   | pre a b => exact (precreate_spec hwf a b hd).1
+  | trunc t => exact hd.elim
 
 theorem init_wf : WF State.init.data := ⟨by simp [State.init], by simp [State.init]⟩
 
@@ -757,6 +759,7 @@ theorem step_mono (s : State) (op : Op) (hwf : WF s.data) (hd : opDom op) (hk : 
   | exp db rp D t => simp only [step]; split <;> exact Mono.refl _
   | store f ids => exact Mono.refl _
   | pre a b => exact (precreate_spec hwf a b hd).2
+  | trunc t => exact hd.elim
   | del | dc | setdel | dropshard => simp [keeps] at hk
 
 end Influx.Meta
